@@ -6,6 +6,8 @@ import (
 	"math/big"
 	"time"
 
+	"github.com/0xPolygon/cdk-contracts-tooling/contracts/pp/l2-sovereign-chain/globalexitrootmanagerl2sovereignchain"
+	"github.com/agglayer/aggkit/db"
 	"github.com/agglayer/aggkit/internal/zzverif"
 	"github.com/agglayer/aggkit/l1infotreesync"
 	"github.com/agglayer/aggkit/sync"
@@ -71,21 +73,34 @@ func (c *zzPPChain) FilterLogs(ctx context.Context, q ethereum.FilterQuery) ([]t
 	return logs, nil
 }
 
-type zzPPL1Info struct{ L1InfoTreeQuerier }
+type zzPPL1Info struct {
+	L1InfoTreeQuerier
+	lag     bool          // the L1 info syncer is behind: the first lookup of every root answers "not found"
+	lookups []common.Hash // roots looked up so far
+}
 
 // the L1 info index of a root is carried in its first four bytes (any injective labelling would do)
 func zzPPIndexOf(g common.Hash) uint32 {
 	return uint32(g[0])<<24 | uint32(g[1])<<16 | uint32(g[2])<<8 | uint32(g[3])
 }
-func (zzPPL1Info) GetInfoByGlobalExitRoot(g common.Hash) (*l1infotreesync.L1InfoTreeLeaf, error) {
+func (i *zzPPL1Info) GetInfoByGlobalExitRoot(g common.Hash) (*l1infotreesync.L1InfoTreeLeaf, error) {
+	seen := false
+	for _, x := range i.lookups {
+		if x == g {
+			seen = true
+		}
+	}
+	i.lookups = append(i.lookups, g)
+	if i.lag && !seen {
+		return nil, db.ErrNotFound
+	}
 	return &l1infotreesync.L1InfoTreeLeaf{GlobalExitRoot: g, L1InfoTreeIndex: zzPPIndexOf(g)}, nil
 }
 
 // ZZVerif_C16_PPDownload: the real PP download loop runs against a chain of NB blocks after block START, with NP polls that see
 // arbitrary non-decreasing tips (several new blocks, or none, between two polls). Every block with a GER event at or below the
 // last tip seen is handed over exactly once, in order, with the event's contents; nothing else is.
-// (Log decoding by the generated contract binding is replaced by reading the indexed topics; the event construction is the
-// one of buildAppender.)
+// The events are built by the downloader's real appender (buildAppender) over the generated contract binding.
 func ZZVerif_C16_PPDownload() {
 	nb, np := zzverif.Param("NB"), zzverif.Param("NP")
 	start := uint64(zzverif.Param("START"))
@@ -116,20 +131,14 @@ func ZZVerif_C16_PPDownload() {
 		prev, pi = cands[ti], ti
 	}
 	rh := &sync.RetryHandler{RetryAfterErrorPeriod: time.Millisecond, MaxRetryAttemptsAfterError: 5}
-	d := &downloaderPP{l2GERAddr: ch.addr, l1InfoTreeSync: zzPPL1Info{}, rh: rh}
-	appender := make(sync.LogAppenderMap)
-	appender[insertGEREventSignature] = func(b *sync.EVMBlock, l types.Log) error {
-		leaf, err := d.l1InfoTreeSync.GetInfoByGlobalExitRoot(l.Topics[1])
-		if err != nil {
-			return err
-		}
-		b.Events = []any{&Event{GEREvent: &GEREvent{BlockNum: b.Num, GlobalExitRoot: l.Topics[1], L1InfoTreeIndex: leaf.L1InfoTreeIndex}}}
-		return nil
+	d := &downloaderPP{l2GERAddr: ch.addr, l1InfoTreeSync: &zzPPL1Info{lag: zzverif.Param("LAG") == 1}, rh: rh}
+	// the real appender of the downloader, over the generated contract binding (modelled symbolically, real natively)
+	binding, err := globalexitrootmanagerl2sovereignchain.NewGlobalexitrootmanagerl2sovereignchain(ch.addr, nil)
+	zzverif.Assert("contract binding", err == nil)
+	if err != nil {
+		return
 	}
-	appender[removeGEREventSignature] = func(b *sync.EVMBlock, l types.Log) error {
-		b.Events = []any{&Event{GEREvent: &GEREvent{BlockNum: b.Num, GlobalExitRoot: l.Topics[1], IsRemove: true}}}
-		return nil
-	}
+	appender := d.buildAppender(binding)
 	d.EVMDownloaderImplementation = sync.NewEVMDownloaderImplementation("lastgersync", ch, big.NewInt(-2), time.Millisecond, appender,
 		[]common.Address{ch.addr}, rh, nil)
 	out := make(chan sync.EVMBlock, 64)
